@@ -93,9 +93,30 @@ package vgirpc
 //@   ensures [sessionlost] typeof(e) == *SessionLostError ==> result == "session_lost"
 //@   ensures [draining] typeof(e) == *ServerDrainingError ==> result == "server_draining"
 //@   ensures [notimplemented] typeof(e) == *MethodNotImplementedError ==> result == "MethodNotImplementedError"
+// reportableError hands back the error it was given unless that error cannot be formatted (a nil
+// pointer in the interface, an Error method that panics): then it is an RpcError of type
+// "RuntimeError" — never a Go type name (repaired defect: such a value panicked inside
+// buildErrorExtra after every recover had returned, and no envelope was written at all).
+// writeErrorBatch normalises the error it is given through it before anything formats it.
+// `recovered` is "this literal's recover() stopped a panic"; it is false at every call the
+// engine follows, so the literal leaves the result alone on the paths the contracts speak about.
+//
+//@ func reportableError
+//@   property C05
+//@   at store RpcError.Type assert [typednil] value == "RuntimeError"
+//@   at call error.Error assert [probe] arg0 == err
+//@   ensures [local_identity_ret3] out == err
+//@ func reportableError$1
+//@   property C05
+//@   at store RpcError.Type assert [unformattable] value == "RuntimeError"
+//@   ensures [untouched] !recovered ==> out == old(out)
 //@ func writeErrorBatch
 //@   property C05
-//@   at call buildErrorExtra assert [sameerror] arg0 == err && arg1 == debug
+//@   pathvar reported error
+//@   at call reportableError assert [normalisesgiven] arg0 == err
+//@   at call reportableError setflag reported result
+//@   at call buildErrorExtra assert [sameerror] arg0 == reported && arg0 == err && arg1 == debug
+//@   at call error.Error assert [messageofreported] arg0 == reported
 //@   at call arrow.NewMetadata assert [extra] len(arg0) == len(arg1) && len(arg0) >= 3 && arg0[2] == MetaLogExtra && arg1[2] == extraJSON
 //@   at call arrow.NewMetadata assert [kind_rpcerror] typeof(err) == *RpcError && as(err, "*RpcError").Kind != "" ==> arg0[len(arg0)-1] == MetaErrorKind && arg1[len(arg1)-1] == as(err, "*RpcError").Kind
 //@   at call arrow.NewMetadata assert [kind_version] typeof(err) == *ProtocolVersionError ==> arg0[len(arg0)-1] == MetaErrorKind && arg1[len(arg1)-1] == "protocol_version_mismatch"
